@@ -28,6 +28,9 @@ type Case struct {
 	Rect     [4]int      `json:"rect"`
 	Ops      []ops.Op    `json:"ops"`
 	ViaBytes bool        `json:"via_bytes"`
+	// Copied: the Renderer that receives the calls is a copy (plain assignment) of the one that
+	// SetRasterizer was called on.
+	Copied bool `json:"copied,omitempty"`
 }
 
 type pathObs struct {
@@ -41,9 +44,15 @@ func run(c Case) (delivered []ops.Op, paths []pathObs, stray []rast.Call, err er
 	vb := [4]float32{float32(c.ViewBox[0]), float32(c.ViewBox[1]), float32(c.ViewBox[2]), float32(c.ViewBox[3])}
 	rect := image.Rect(c.Rect[0], c.Rect[1], c.Rect[0]+c.Rect[2], c.Rect[1]+c.Rect[3])
 	rr := &rast.Recorder{}
-	var z render.Renderer
-	z.SetRasterizer(rr, rect)
-	hook := &ops.Recorder{Inner: &z}
+	var z0 render.Renderer
+	z0.SetRasterizer(rr, rect)
+	zp := &z0
+	if c.Copied {
+		z1 := z0 // a Renderer is a plain struct: a copy is as good as the original
+		z0 = render.Renderer{}
+		zp = &z1
+	}
+	hook := &ops.Recorder{Inner: zp}
 	inPath := false
 	last := 0
 	hook.After = func(o ops.Op) {
@@ -139,7 +148,12 @@ func checkPaint(c Case) error {
 		if len(calls) < 4 || calls[0].K != rast.Reset || calls[len(calls)-1].K != rast.Draw || calls[len(calls)-2].K != rast.ClosePath {
 			return harness.Violatef("c04/path-not-drawn", "path %d (op %d) must be drawn with a %v paint (CREG value %v) but the rasteriser saw %d calls %v", pi-1, i, pp.Kind, pp.Source, len(calls), head(calls))
 		}
-		if calls[0].W != c.Rect[2] || calls[0].H != c.Rect[3] {
+		if rect.Empty() {
+			// every empty rectangle is the zero rectangle to the Renderer (documented in SetRasterizer)
+			if calls[0].W != 0 || calls[0].H != 0 || calls[len(calls)-1].R != (image.Rectangle{}) {
+				return harness.Violatef("c04/reset-size", "path %d: Reset(%d,%d), Draw(%v) for an empty rectangle", pi-1, calls[0].W, calls[0].H, calls[len(calls)-1].R)
+			}
+		} else if calls[0].W != c.Rect[2] || calls[0].H != c.Rect[3] {
 			return harness.Violatef("c04/reset-size", "path %d: Reset(%d,%d) for a %dx%d rectangle", pi-1, calls[0].W, calls[0].H, c.Rect[2], c.Rect[3])
 		}
 		nDraw, nReset := 0, 0
@@ -155,7 +169,7 @@ func checkPaint(c Case) error {
 			return harness.Violatef("c04/draw-count", "path %d: %d Reset and %d Draw calls, expected one each", pi-1, nReset, nDraw)
 		}
 		d := calls[len(calls)-1]
-		if d.R != rect || d.SP != (image.Point{}) {
+		if !rect.Empty() && d.R != rect || d.SP != (image.Point{}) {
 			return harness.Violatef("c04/draw-rect", "path %d: Draw(%v, sp=%v), target rectangle %v", pi-1, d.R, d.SP, rect)
 		}
 		switch pp.Kind {
@@ -192,7 +206,7 @@ func checkPaint(c Case) error {
 			dd, e, f := float64(m[3]), float64(m[4]), float64(m[5])
 			want := [6]float64{a / sx, b / sy, cc + a*vb[0] + b*vb[1], dd / sx, e / sy, f + dd*vb[0] + e*vb[1]}
 			scale := [6]float64{0, 0, math.Abs(cc) + math.Abs(a*vb[0]) + math.Abs(b*vb[1]), 0, 0, math.Abs(f) + math.Abs(dd*vb[0]) + math.Abs(e*vb[1])}
-			finite := true
+			finite := !rect.Empty() // an empty rectangle has no pixel -> viewBox map to compose with
 			for _, v := range m {
 				if v != v || v-v != 0 {
 					finite = false // no claim about non-finite matrices
@@ -267,8 +281,15 @@ func genCase(t *rapid.T) (Case, map[string]bool) {
 		c.Palette = gen.Palette(t, "pal", true)
 		gs.l("custom-palette")
 	}
-	h := rapid.SampledFrom([]int{1, 2, 31, 32, 33, 64, 100, 511, 512, 600}).Draw(t, "h")
+	h := rapid.SampledFrom([]int{0, 1, 2, 31, 32, 33, 64, 100, 511, 512, 600}).Draw(t, "h")
 	c.Rect = [4]int{rapid.IntRange(0, 30).Draw(t, "x0"), rapid.IntRange(0, 30).Draw(t, "y0"), rapid.IntRange(1, 600).Draw(t, "w"), h}
+	if h == 0 {
+		gs.l("empty-target-rectangle") // height 0 lies inside the default level-of-detail range
+	}
+	if rapid.IntRange(0, 3).Draw(t, "copied") == 0 {
+		c.Copied = true
+		gs.l("renderer-copied-after-SetRasterizer")
+	}
 	c.ViaBytes = rapid.IntRange(0, 2).Draw(t, "via") == 0
 	if c.ViaBytes {
 		gs.l("via-bytes")
